@@ -99,6 +99,18 @@ func prioGenFields(r *Rng, depth int, counter *int) []*prioField {
 	n := 1 + r.Intn(4)
 	used := map[string]bool{}
 	var out []*prioField
+	if r.Chance(6) {
+		// a sibling pair whose names (and so whose environment variables) differ by a common suffix only:
+		// Token / TokenFile -> CFG_TOKEN / CFG_TOKEN_FILE. Each is a field of its own.
+		base := Pick(r, []string{"Token", "Key", "Cert"})
+		suffix := Pick(r, []string{"File", "Path", "B64"})
+		for _, g := range []string{base, base + suffix} {
+			used[g] = true
+			*counter++
+			out = append(out, &prioField{GoName: g, Kind: ckString, Name: strings.ToLower(g)})
+		}
+		n += 2
+	}
 	for len(out) < n {
 		g := Pick(r, prioGoNames)
 		if used[g] {
